@@ -320,13 +320,13 @@ def gen_scripts(chk):
 
     n2 = 4 * (2 * (1 + 6 + 36)) ** 2
     n3 = 8 * (2 * (1 + 7)) ** 3
-    for c in some(enum(2, 2, 2), n2, n2 if thorough else 1500):
+    for c in some(enum(2, 2, 2), n2, n2 if thorough else 3000):
         cases.append((c, "script-2x2x2"))
-    for c in some(enum(3, 1, 3), n3, n3 if thorough else 1500):
+    for c in some(enum(3, 1, 3), n3, n3 if thorough else 3000):
         cases.append((c, "script-3x1x3"))
     # 3 handlers x <=2 actions x 3 stanzas: sampled
     acts_of = small_universe(3)
-    for _ in range(120000 if thorough else 1200):
+    for _ in range(120000 if thorough else 3000):
         kinds = [rng.choice("si") for _ in range(3)]
         behs = []
         for i in range(3):
@@ -445,7 +445,7 @@ def gen_timed(chk):
                     cases.append(("def 0 t %d 100 0 y;add 0;clock %d;reset 1;clock 1;%s" % (P, max(P - 1, 0), runop), "timed-rearm"))
     # timed scripts
     acts = ["add:1", "add:2", "add:0", "delt:101", "delt:102", "send:x", "add:3", "delg:200", "add:4"]
-    for _ in range(6000 if chk.tier == "thorough" else 500):
+    for _ in range(6000 if chk.tier == "thorough" else 1500):
         parts = ["def 0 t %d 100 0 u" % rng.choice([0, 10]), "def 1 t %d 101 0 %s" % (rng.choice([0, 10]), rng.choice("uy")),
                  "def 2 t %d 102 0 u" % rng.choice([0, 10, 20]), "def 3 g %d 200 0" % rng.choice([0, 10]),
                  "def 4 s - - - 0 0 u"]
@@ -558,7 +558,7 @@ def run(chk):
     chk.rule = ("corpus; filter matching: all 27 ns/name/type filters (incl. NULL) x all stanzas of a 3x4x4x8 vocabulary "
                 "(child-namespace matches, text children; direct and through the real parser), id filters; scripts: all "
                 "behaviours (return 0/1, <=2 actions of {add stanza/id/timed handler, re-add, delete an other handler, send}) "
-                "over 2 handlers x 2 stanzas and <=1 action over 3 handlers x 3 stanzas (thorough: exhaustive; quick: 1500 "
+                "over 2 handlers x 2 stanzas and <=1 action over 3 handlers x 3 stanzas (thorough: exhaustive; quick: 3000 "
                 "sampled each) plus sampled 3x2x3; random larger programs (<=6 definitions of all kinds, duplicates, same "
                 "callback/different userdata, system handlers, per-call behaviours, neg/state toggles, sysdel, re-arm); timed: "
                 "periods 0/1/2/100/15000 with clock steps period-1/period/period+1, re-arm by stream start and "
@@ -581,7 +581,7 @@ def run(chk):
     cases += gen_match(chk)
     cases += gen_scripts(chk)
     cases += gen_timed(chk)
-    cases += gen_random(chk, 60000 if thorough else 2500)
+    cases += gen_random(chk, 60000 if thorough else 6000)
     uaf = gen_uaf(chk)
     lines = [c for c, _ in cases]
     impl = vlib.run_parallel(exe, lines, batch=500)
